@@ -348,7 +348,7 @@ theorem C11_compared_iff (sel : Nat → Bool) (pred : Fld → Fld → Outcome) (
     refine ⟨outcomeStatus (pred s t), ?_, (h4 _ ?_).mpr ⟨s, hsm, t, htm, hsn', htn', hsel, rfl⟩⟩
     all_goals cases pred s t <;> simp [outcomeStatus, isCompared]
 
-theorem distinctNames_iff (l : List Fld) : Spec.distinctNames l = true ↔ (names l).Nodup := by
+theorem C11_distinctNames_iff (l : List Fld) : Spec.distinctNames l = true ↔ (names l).Nodup := by
   induction l with
   | nil => simp [Spec.distinctNames, names]
   | cons f fs ih =>
@@ -374,7 +374,7 @@ theorem C11_model_eq_spec (sel : Nat → Bool) (pred : Fld → Fld → Outcome) 
     (hyp : Spec.hyp src ref = true) :
     (comparatorCall sel true pred src ref).suite.iter.Perm (Spec.report sel pred src ref) ∧
     ∀ dom, (comparatorCall sel dom pred src ref).suite.bool = Spec.verdict sel dom pred src ref := by
-  simp only [Spec.hyp, Bool.and_eq_true, distinctNames_iff] at hyp
+  simp only [Spec.hyp, Bool.and_eq_true, C11_distinctNames_iff] at hyp
   obtain ⟨hs, hr⟩ := hyp
   have honce := (C11_once sel pred src ref hs hr).1
   have hRnodup : (comparatorCall sel true pred src ref).suite.iter.Nodup := nodup_of_nodup_map _ honce
